@@ -7,7 +7,7 @@
 From Coq Require Import Reals ZArith List Permutation.
 From PV Require Import Num NumR Model_mindex Proofs_mindex Proofs_mindex_mass
   Proofs_mindex_single Proofs_mindex_single_thm Proofs_mindex_batched Proofs_mindex_hist Inst_mindex
-  Inst_mindex_random Inst_mindex_index Proofs_mindex_gen.
+  Inst_mindex_random Inst_mindex_index Proofs_mindex_gen Proofs_mindex_frame.
 From PV.gen Require Import Gen_mindex.
 Import ListNotations.
 Open Scope R_scope.
@@ -293,30 +293,31 @@ Theorem C14_gen_indices_positional : forall m : arr R,
 Proof. exact indices_inst. Qed.
 
 (* stats.misorientations_random as generated (symbolic bin edges: range check, four Grimmer branches per
-   edge, assert False) IS the model's density, for every lattice system and ALL low, high *)
+   edge, assert False) IS the model's density, for every lattice system and ALL low, high; in particular it
+   is ValueError outside 0 <= low <= high <= theta_max *)
 Theorem C14_gen_random_is_model : forall s (low high : R),
-  gen_random s low high = @misorientations_random NumR low high s.
-Proof. exact gen_random_inst. Qed.
-
-Theorem C14_gen_random_value_error : forall s (low high : R),
-  low < 0 \/ high < low \/ IZR (Z.of_nat (theta_max s)) < high -> gen_random s low high = Err ValueError.
-Proof. exact gen_random_value_error. Qed.
+  gen_random s low high = @misorientations_random NumR low high s /\
+  (low < 0 \/ high < low \/ IZR (Z.of_nat (theta_max s)) < high -> gen_random s low high = Err ValueError).
+Proof. exact (fun s low high => conj (gen_random_inst s low high) (gen_random_value_error s low high)). Qed.
 
 (* diagnostics.misorientation_index as generated, given the histogram: the theta_max density calls in
-   source order (first error wins), then theta_max / (2 n_bins) * sum |theory - observed| *)
-Theorem C14_gen_index_is_model : forall s (obs : list R), length obs = theta_max s ->
-  gen_index s (mk_arr 0 obs) =
-  match @theory NumR s with Err e => Err e | Ok th => Ok (@m_of NumR (theta_max s) th obs) end.
-Proof. exact gen_index_inst. Qed.
+   source order (first error wins), then theta_max / (2 n_bins) * sum |theory - observed|; after the
+   histogram of any angle list it is the model's index *)
+Theorem C14_gen_index_is_model : forall s,
+  (forall obs : list R, length obs = theta_max s ->
+     gen_index s (mk_arr 0 obs) =
+     match @theory NumR s with Err e => Err e | Ok th => Ok (@m_of NumR (theta_max s) th obs) end) /\
+  (forall angs : list R,
+     gen_index s (mk_arr 0 (@hist_density NumR (theta_max s) angs)) = @mindex_of_angles NumR s angs).
+Proof. exact (fun s => conj (gen_index_inst s) (gen_index_hist s)). Qed.
 
-Theorem C14_gen_index_after_histogram : forall s (angs : list R),
-  gen_index s (mk_arr 0 (@hist_density NumR (theta_max s) angs)) = @mindex_of_angles NumR s angs.
-Proof. exact gen_index_hist. Qed.
-
-(* the mass theorem, now about generated code *)
+(* the mass theorem, now about generated code, and its consequence for the generated index of ANY
+   normalised theta_max-bin histogram: M in [0, 1.0005] for the three good-mass systems *)
 Theorem C14_gen_theory_mass : forall s, good_mass s ->
-  exists th, gen_theory s = Ok th /\ Forall (Rle 0) th /\ Rabs (rsum th - 1) <= 1 / 1000.
-Proof. exact gen_theory_mass. Qed.
+  (exists th, gen_theory s = Ok th /\ Forall (Rle 0) th /\ Rabs (rsum th - 1) <= 1 / 1000) /\
+  (forall (obs : list R) m, length obs = theta_max s -> Forall (Rle 0) obs -> rsum obs = 1 ->
+     gen_index s (mk_arr 0 obs) = Ok m -> 0 <= m <= 1 + 5 / 10000).
+Proof. exact (fun s Hs => conj (gen_theory_mass s Hs) (fun obs m => gen_index_unit_interval s obs m Hs)). Qed.
 
 (* ANY normalised histogram against ANY non-negative density of mass 1: M in [0, 1] *)
 Theorem C14_mindex_unit_abstract : forall n (th obs : list R), (0 < n)%nat -> length obs = n ->
@@ -331,11 +332,6 @@ Theorem C14_gen_index_range : forall s (obs th : list R) m,
   gen_index s (mk_arr 0 obs) = Ok m ->
   m = @m_of NumR (theta_max s) th obs /\ 0 <= m <= (1 + rsum th) / 2.
 Proof. exact gen_index_range. Qed.
-
-Theorem C14_gen_index_unit_interval : forall s (obs : list R) m, good_mass s ->
-  length obs = theta_max s -> Forall (Rle 0) obs -> rsum obs = 1 ->
-  gen_index s (mk_arr 0 obs) = Ok m -> 0 <= m <= 1 + 5 / 10000.
-Proof. exact gen_index_unit_interval. Qed.
 
 (* the generated pipeline for 2 / 3 grains (hist data -> np.histogram = hist_density -> generated index)
    is the model's index of the oracle's quaternions with the Dropped product *)
@@ -385,3 +381,11 @@ Theorem C14_symops_not_closed :
   not_closed (@symmetry_operations NumR Tetragonal) /\
   not_closed (@symmetry_operations NumR Hexagonal).
 Proof. exact (conj rhombohedral_not_closed (conj tetragonal_not_closed hexagonal_not_closed)). Qed.
+
+(* the frame-invariance clause FAILS of the product the source computes (orthorhombic list): 1 and k have
+   misorientation angle 0; seen from the sample frame rotated by r = (1,2,2,4)/5 the angle is positive *)
+Theorem C14_dropped_frame_dependent :
+  exists q1 q2 r : Q4, qnorm2 q1 = 1 /\ qnorm2 q2 = 1 /\ qnorm2 r = 1 /\
+    @pair_angle NumR Dropped (@symmetry_operations NumR Orthorhombic) q1 q2 = 0 /\
+    0 < @pair_angle NumR Dropped (@symmetry_operations NumR Orthorhombic) (hmul q1 r) (hmul q2 r).
+Proof. exact dropped_frame_dependent. Qed.
